@@ -13,6 +13,8 @@ use serde_json::{json, Value};
 pub enum Site {
     Witness(usize),
     KConst(usize),
+    /// constant shifted by a combination of the constraint's own constant terms (delta index = selector)
+    KStruct(usize),
     Gate(usize, u8),
     /// several wires of one gate at once (index into GATE2_KINDS)
     Gate2(usize, usize),
@@ -33,6 +35,7 @@ impl Site {
         match self {
             Site::Witness(i) => json!({"kind": "witness", "index": i}),
             Site::KConst(k) => json!({"kind": "constant", "index": k}),
+            Site::KStruct(k) => json!({"kind": "constant-structural", "index": k}),
             Site::Gate(g, f) => { let fl = ["l", "r", "o"][*f as usize]; json!({"kind": "gate", "index": g, "field": fl}) }
             Site::Gate2(g, k) => json!({"kind": "gate2", "index": g, "field": GATE2_KINDS[*k].2}),
         }
@@ -42,6 +45,7 @@ impl Site {
         match v["kind"].as_str().unwrap() {
             "witness" => Site::Witness(i),
             "constant" => Site::KConst(i),
+            "constant-structural" => Site::KStruct(i),
             "gate2" => Site::Gate2(i, GATE2_KINDS.iter().position(|k| Some(k.2) == v["field"].as_str()).unwrap()),
             _ => Site::Gate(i, ["l", "r", "o"].iter().position(|x| Some(*x) == v["field"].as_str()).unwrap() as u8),
         }
@@ -50,6 +54,7 @@ impl Site {
         match self {
             Site::Witness(i) => Dev::Witness { idx: *i, delta },
             Site::KConst(k) => Dev::KConst { k: *k, delta, both: true },
+            Site::KStruct(_) => unreachable!(),
             Site::Gate(g, f) => Dev::Gate { gate: *g, field: *f, delta },
             Site::Gate2(g, k) => {
                 let sg = |x: i8| if x > 0 { delta } else if x < 0 { -delta } else { F::zero() };
@@ -68,6 +73,7 @@ pub fn sites(p: &Program) -> Vec<Site> {
     }
     for i in 0..k {
         out.push(Site::KConst(i));
+        out.push(Site::KStruct(i));
     }
     for i in 0..g {
         for f in 0..3 {
@@ -100,8 +106,11 @@ pub enum Out {
 }
 
 pub fn run_case<G: Cv>(env: &Env<G>, c: &Case, seed: u64) -> Out {
-    let delta = deltas::<G::ScalarField>(seed)[c.delta];
-    let dev = c.site.dev(delta);
+    let delta = deltas::<G::ScalarField>(seed)[c.delta.min(2)];
+    let dev = match &c.site {
+        Site::KStruct(k) => Dev::KConstStruct { k: *k, sel: c.delta },
+        s => s.dev(delta),
+    };
     let pr = match guarded(|| program::prove::<G>(&c.prog, &env.pc, &env.bp, seed, "c02", dev.clone())) {
         Ok(p) => p,
         Err(m) => return Out::Bad { expected: "prove returns".into(), observed: format!("prove panicked: {}", m) },
@@ -119,7 +128,7 @@ pub fn run_case<G: Cv>(env: &Env<G>, c: &Case, seed: u64) -> Out {
     };
     // the verifier sees the statement: constants shifted on both sides stay shifted there
     let vdev = match &dev {
-        Dev::KConst { .. } => dev.clone(),
+        Dev::KConst { .. } | Dev::KConstStruct { .. } => dev.clone(),
         _ => Dev::None,
     };
     let vr = match guarded(|| program::verify::<G>(&c.prog, &env.pc, &env.bp, seed, vdev, &pr.commitments, &proof, program::LABEL)) {
@@ -157,7 +166,16 @@ pub fn cases(tier: Tier) -> (Vec<Case>, Value) {
     let mut idx = 0usize;
     for p in &all {
         for s in sites(p) {
-            for d in 0..3 {
+            let nd = if matches!(s, Site::KStruct(_)) { 4 } else { 3 };
+            for d in 0..nd {
+                if matches!(s, Site::KStruct(_)) {
+                    match tier {
+                        Tier::Quick => out.push(Case { curve: CURVES[idx % 3], prog: p.clone(), site: s.clone(), delta: d }),
+                        Tier::Thorough => out.push(Case { curve: CURVES[idx % 3], prog: p.clone(), site: s.clone(), delta: d }),
+                    }
+                    idx += 1;
+                    continue;
+                }
                 // multi-wire gate patterns: one delta (rho) in the quick tier, two in the thorough tier
                 if matches!(s, Site::Gate2(..)) && (d == 1 || (d == 0 && tier == Tier::Quick)) {
                     continue;
@@ -190,7 +208,7 @@ pub fn cases(tier: Tier) -> (Vec<Case>, Value) {
 }
 
 fn case_json(c: &Case) -> Value {
-    json!({"curve": c.curve, "program": c.prog.name(), "site": c.site.json(), "delta": DELTA_NAMES[c.delta]})
+    json!({"curve": c.curve, "program": c.prog.name(), "site": c.site.json(), "delta": if matches!(c.site, Site::KStruct(_)) { ["-(sum of constants)", "+(sum of constants)", "-(first constant)", "+(last constant)"][c.delta] } else { DELTA_NAMES[c.delta] }})
 }
 
 pub fn main(o: &Opts) -> i32 {
@@ -214,6 +232,7 @@ pub fn main(o: &Opts) -> i32 {
             let kind = match c.site {
                 Site::Witness(_) => "witness",
                 Site::KConst(_) => "constant",
+                Site::KStruct(_) => "constant-structural",
                 Site::Gate(..) => "gate",
                 Site::Gate2(..) => "gate2",
             };
@@ -269,7 +288,7 @@ pub fn replay(path: &str, o: &Opts) -> i32 {
         curve,
         prog: Program::parse(case["program"].as_str().unwrap()).expect("program"),
         site: Site::from_json(&case["site"]),
-        delta: DELTA_NAMES.iter().position(|d| Some(*d) == case["delta"].as_str()).unwrap(),
+        delta: DELTA_NAMES.iter().position(|d| Some(*d) == case["delta"].as_str()).or_else(|| ["-(sum of constants)", "+(sum of constants)", "-(first constant)", "+(last constant)"].iter().position(|d| Some(*d) == case["delta"].as_str())).unwrap(),
     };
     let seed = v["seed"].as_u64().unwrap_or(o.seed);
     let run = || with_curve!(curve, G => { let env = Env::<G>::new(64); format!("{:?}", run_case::<G>(&env, &c, seed)) });
